@@ -16,7 +16,8 @@ type Val struct {
 	O *Obj   `json:"o,omitempty"`
 }
 
-// Outcome of resolving one (field, args) of one object.  Fail: "" | err | safe | wrapped | panic.
+// Outcome of resolving one (field, args) of one object.  Fail: "" | err | safe | wrapped | panic | wrapsafe
+// (wrapsafe: an ordinary error wrapping a safe one with %w).
 type Outcome struct {
 	Fail string `json:"fail,omitempty"`
 	Msg  string `json:"msg,omitempty"`
@@ -93,7 +94,7 @@ func (g *dataGen) obj(typ string, depth int) *Obj {
 		}
 		for _, k := range keys {
 			if !f.Struct && g.pFail > 0 && g.r.Chance(g.pFail) {
-				kind := []string{"err", "err", "safe", "wrapped", "panic"}[g.r.Intn(5)]
+				kind := []string{"err", "err", "safe", "wrapped", "panic", "wrapsafe"}[g.r.Intn(6)]
 				o.Res[k] = &Outcome{Fail: kind, Msg: fmt.Sprintf("E%d.%s", o.ID, k)}
 				continue
 			}
